@@ -13,7 +13,11 @@ ops (every answer is `<result>;<dump of all maps>`):
   del h                        HostMap.DeleteHostInfo                         -> final 0|1
   pdel h                       HandshakeManager.DeleteHostInfo                -> ok
   prim h                       MakePrimary                                    -> prim 0|1
-  relay h peer v,v,…           AddRelay                                       -> idx n | err:unlinked | err:exhausted
+  relay h peer ty st v,v,…     AddRelay(type ty, state st)                    -> idx n | err:unlinked | err:exhausted
+  relayto h a                  relayState.InsertRelayTo(a)                    -> ok
+dump: H a:h… | M a:h,h… | I i:h… | R r:h… | L i:h… | V a:h… | P i:h… | N next |
+      O h:lidx:ridx:addrs:ready:byIdx:byAddr:relaysTo …   (every referenced tunnel; byIdx = idx/peer/type/state,…
+      byAddr = peer/idx/type/state,…; ready only for pending tunnels)
 -/
 import Nebula.Driver.Common
 import Nebula.Model.HostMap
@@ -34,11 +38,20 @@ def sect {β : Type} (name : String) (m : FMap β) (f : β → String) : String 
 
 def refsOf (s : State) : List Nat := (mainRefs s ++ pendingRefs s).eraseDups.mergeSort (· ≤ ·)
 
+def relList (m : FMap Relay) (f : Nat → Relay → String) : String :=
+  if m.isEmpty then "-" else ",".intercalate ((sortKeys m).map fun (k, r) => f k r)
+
 def dump (s : State) : String :=
-  let os := (refsOf s).map fun h => let o := s.obj h; s!" {h}:{o.lidx}:{o.ridx}:{natList o.addrs}:{natList (o.relays.mergeSort (· ≤ ·))}"
+  let os := (refsOf s).map fun h =>
+    let o := s.obj h
+    let r := s.rstate h
+    let rdy := boolStr (o.ready && (pendingRefs s).contains h)
+    s!" {h}:{o.lidx}:{o.ridx}:{natList o.addrs}:{rdy}:" ++
+      relList r.byIdx (fun k x => s!"{k}/{x.peer}/{x.type}/{x.state}") ++ ":" ++
+      relList r.byAddr (fun k x => s!"{k}/{x.lidx}/{x.type}/{x.state}") ++ ":" ++ natList r.relaysTo
   "|".intercalate [sect "H" s.hosts toString, sect "M" s.more natList, sect "I" s.indexes toString,
     sect "R" s.rindexes toString, sect "L" s.relays toString, sect "V" s.vpnIps toString, sect "P" s.pidx toString,
-    "O" ++ String.join os]
+    s!"N {s.next}", "O" ++ String.join os]
 
 /-! ### parsing an implementation dump back into a `State` (objects: only the referenced ones) -/
 
@@ -55,20 +68,32 @@ def parseSect {β : Type} (t : String) (name : String) (f : String → Option β
       | [k, v] => do let k ← k.toNat?; let v ← f v; pure (m.set k v)
       | _ => none) []
 
-def parseObjs (t : String) : Option (FMap Obj) :=
+/-- `k/a/type/state,…`; `byIdx = true`: k is the local index and a the peer, else the other way round -/
+def parseRelList (t : String) (byIdx : Bool) : Option (FMap Relay) :=
+  if t == "-" then some [] else
+  (t.splitOn ",").foldlM (fun m it =>
+    match it.splitOn "/" with
+    | [k, a, ty, st] => do
+      let k ← k.toNat?; let a ← a.toNat?; let ty ← ty.toNat?; let st ← st.toNat?
+      pure (m.set k (if byIdx then { type := ty, state := st, lidx := k, peer := a } else { type := ty, state := st, lidx := a, peer := k }))
+    | _ => none) []
+
+def parseObjs (t : String) : Option (FMap Obj × FMap RelayState) :=
   match (t.splitOn " ").filter (· ≠ "") with
   | "O" :: items =>
-    items.foldlM (fun m it =>
+    items.foldlM (fun (m, rs) it =>
       match it.splitOn ":" with
-      | [h, li, ri, ad, rl] => do
-        let h ← h.toNat?; let li ← li.toNat?; let ri ← ri.toNat?; let ad ← parseNatList ad; let rl ← parseNatList rl
-        pure (m.set h { addrs := ad, lidx := li, ridx := ri, relays := rl })
-      | _ => none) []
+      | [h, li, ri, ad, rdy, bi, ba, rt] => do
+        let h ← h.toNat?; let li ← li.toNat?; let ri ← ri.toNat?; let ad ← parseNatList ad
+        let bi ← parseRelList bi true; let ba ← parseRelList ba false; let rt ← parseNatList rt
+        pure (m.set h { addrs := ad, lidx := li, ridx := ri, ready := rdy == "1" },
+              if bi.isEmpty && ba.isEmpty && rt.isEmpty then rs else rs.set h { relaysTo := rt, byAddr := ba, byIdx := bi })
+      | _ => none) ([], [])
   | _ => none
 
 def parseDump (t : String) : Option State :=
   match t.splitOn "|" with
-  | [h, m, i, r, l, v, p, o] => do
+  | [h, m, i, r, l, v, p, n, o] => do
     let h ← parseSect h "H" String.toNat?
     let m ← parseSect m "M" parseNatList
     let i ← parseSect i "I" String.toNat?
@@ -76,8 +101,9 @@ def parseDump (t : String) : Option State :=
     let l ← parseSect l "L" String.toNat?
     let v ← parseSect v "V" String.toNat?
     let p ← parseSect p "P" String.toNat?
-    let o ← parseObjs o
-    pure { objs := o, next := 0, hosts := h, more := m, indexes := i, rindexes := r, relays := l, vpnIps := v, pidx := p }
+    let (o, rs) ← parseObjs o
+    let n ← match (n.splitOn " ").filter (· ≠ "") with | ["N", x] => x.toNat? | _ => none
+    pure { objs := o, rs := rs, next := n, hosts := h, more := m, indexes := i, rindexes := r, relays := l, vpnIps := v, pidx := p }
   | _ => none
 
 /-! ### the oracle on an implementation answer -/
@@ -171,12 +197,12 @@ def step (s : State) (args : List String) (impl : String) : State × Out :=
     | some i, some ads, some r, some t =>
       let (s', fr) := opFin s i ads r t
       match fr with
-      | .noPending => finish s s' "nopending" .plain [] "triv:fin:nopending" impl
+      | .noPending => finish s s' "nopending" .plain (freshOf s (.fin i ads r t)) "triv:fin:nopending" impl
       | .completed h =>
         let evict : Bool := ads.any fun a => decide ((hostList s a).length ≥ maxHostInfos)
         finish s s' s!"ok {h}" .plain [h] (if evict then "fin:ok-evict" else "fin:ok") impl
       | .wrongHost h' isNew =>
-        finish s s' (if isNew then s!"wrong new {h'}" else s!"wrong have {h'}") .plain [] "fin:wrong-host" impl
+        finish s s' (if isNew then s!"wrong new {h'}" else s!"wrong have {h'}") .plain (freshOf s (.fin i ads r t)) "fin:wrong-host" impl
     | _, _, _, _ => (s, badOp)
   | ["resp", ads, r, p, t, vs] =>
     match addrsArg ads, natArg r, natArg p, natArg t, streamArg vs with
@@ -199,9 +225,11 @@ def step (s : State) (args : List String) (impl : String) : State × Out :=
       if !isObj s h then (s, badOp) else
       let (s', final) := deleteHost s h
       let stale := !(mainRefs s).contains h
-      let reused : Bool := stale && ((s.indexes.get (s.obj h).lidx).isSome || (s.obj h).relays.any fun i => (s.relays.get i).isSome)
+      let reused : Bool := stale && ((s.indexes.get (s.obj h).lidx).isSome || (s.rstate h).byIdx.keys.any fun i => (s.relays.get i).isSome)
       finish s s' s!"final {boolStr final}" (.delete h) []
-        (if reused then "del:stale-index-reused" else if stale then "del:stale" else if final then "del:final" else "del:not-final") impl
+        (if reused then "del:stale-index-reused" else if stale then "del:stale"
+         else if final && s'.rs != s.rs then "del:final-disestablishes" else if final then "del:final"
+         else if !(s.rstate h).byIdx.isEmpty then "del:not-final-with-relays" else "del:not-final") impl
     | none => (s, badOp)
   | ["pdel", h] =>
     match natArg h with
@@ -222,14 +250,23 @@ def step (s : State) (args : List String) (impl : String) : State × Out :=
       finish s s' s!"prim {boolStr ok}" .plain []
         (if !ok then "prim:not-live" else if already then "prim:already" else "prim:promoted") impl
     | none => (s, badOp)
-  | ["relay", h, _peer, vs] =>
-    match natArg h, streamArg vs with
-    | some h, some st =>
+  | ["relay", h, peer, ty, st, vs] =>
+    match natArg h, natArg peer, natArg ty, natArg st, streamArg vs with
+    | some h, some peer, some ty, some rst, some st =>
       if !isObj s h then (s, badOp) else
-      let (s', r) := addRelay s h st
+      let (s', r) := addRelay s h { type := ty, state := rst, peer := peer } st
       let collided : Bool := match genIndex st with | some (i, _) => (s.relays.get i).isSome | none => false
+      let again : Bool := ((s.rstate h).byAddr.get peer).isSome
       finish s s' (allocStr r) .handOutRelay []
-        (match r with | .ok _ => (if collided then "relay:ok-after-collision" else "relay:ok") | _ => "relay:" ++ allocStr r) impl
+        (match r with
+          | .ok _ => (if again then "relay:ok-same-peer-again" else if collided then "relay:ok-after-collision" else "relay:ok")
+          | _ => "relay:" ++ allocStr r) impl
+    | _, _, _, _, _ => (s, badOp)
+  | ["relayto", h, a] =>
+    match natArg h, natArg a with
+    | some h, some a =>
+      if !isObj s h then (s, badOp) else
+      finish s (s.setRs h (insertRelayTo (s.rstate h) a)) "ok" .plain [] "relayto" impl
     | _, _ => (s, badOp)
   | _ => (s, badOp)
 
